@@ -175,9 +175,32 @@ class Interp(object):
     def op_set_parent(self, x, p):
         x.parent = p
 
-    def op_setitem(self, t, which, i, x):
+    def op_setitem(self, t, which, i, x, key=None):
         lst = t.sections if which == "sections" else t.properties
-        lst[i] = x
+        lst[i if key is None else key] = x
+
+    def op_bulk_create(self, t, n=26, kind="sec"):
+        made = []
+        for k in range(n):
+            if kind == "sec":
+                made.append(self._reg(t.create_section(name="m%02d" % k, type="t1")))
+            else:
+                made.append(self._reg(t.create_property(name="m%02d" % k, values=k)))
+        return {"made": len(made)}
+
+    def op_clone_twice(self, x, second="clone_keep"):
+        """first = x.clone(); then, before anything has looked at first, a keep_id copy of it."""
+        if kind_of(x) == "prop":
+            first = x.clone()
+        else:
+            first = x.clone(children=True)
+        if second == "export_leaf" and kind_of(first) != "doc":
+            again = first.export_leaf()
+        elif kind_of(first) == "prop":
+            again = first.clone(keep_id=True)
+        else:
+            again = first.clone(children=True, keep_id=True)
+        return {"new": self._reg(first), "again": self._reg(again), "of": self.U.index(x)}
 
     def op_reorder(self, x, i):
         return {"old": x.reorder(i)}
